@@ -21,7 +21,10 @@ func init() {
 			"integer bookkeeping states (GR4J n1,n2) must be equal",
 		},
 		Workloads: []core.Workload{
-			{Name: "split", Variant: "plain", N: core.Tiered(17*30, 17*3000), Run: c06Split},
+			{Name: "split", Variant: "plain", N: core.Tiered(17*30, 17*3000), Run: func(c *core.Ctx) { c06Split(c, false) }},
+			// the same comparison with the chained segments run on caller-owned C memory (cdata views on guarded
+			// buffers), the way libopenwater's RunSingleModel hot-starts: Unroll() copies there instead of aliasing
+			{Name: "split-cbacked", Variant: "plain", N: core.Tiered(17*12, 17*600), Run: func(c *core.Ctx) { c06Split(c, true) }},
 		},
 	})
 }
@@ -67,7 +70,7 @@ func minInt(a, b int) int {
 	return b
 }
 
-func c06Split(c *core.Ctx) {
+func c06Split(c *core.Ctx, cmem bool) {
 	models := statefulModels()
 	model := models[c.Idx%len(models)]
 	N := []int{1, 2, 3}[c.R.Intn(3)]
@@ -87,8 +90,12 @@ func c06Split(c *core.Ctx) {
 		warm = GenRun(model, c.R, N, N, N, c.R.IntRange(5, 20), wc)
 		warm.Sets = run.Sets
 	}
-	c.Begin(map[string]interface{}{"model": model, "run": run, "splits": splits, "warmup_for_hot_states": warm})
-	c.Class(fmt.Sprintf("%s/N%d/%s/hot%v/T%d", model, N, kind, hot, T/20))
+	cmode := ""
+	if cmem {
+		cmode = []string{"guard-after", "guard-before", "malloc"}[c.R.Intn(3)]
+	}
+	c.Begin(map[string]interface{}{"model": model, "run": run, "splits": splits, "warmup_for_hot_states": warm, "segments_on_c_memory": cmode})
+	c.Class(fmt.Sprintf("%s/N%d/%s/hot%v/T%d/c%v", model, N, kind, hot, T/20, cmem))
 	if hot {
 		wo, err := Execute(warm)
 		if err != nil {
@@ -124,7 +131,18 @@ func c06Split(c *core.Ctx) {
 	for s := 0; s+1 < len(bounds); s++ {
 		a, b := bounds[s], bounds[s+1]
 		seg := &MRun{Model: model, N: N, T: b - a, Sets: run.Sets, Inputs: sliceT(run.Inputs, a, b), States: states}
-		so, err := Execute(seg)
+		var so *MOut
+		var err error
+		if cmem {
+			var intact bool
+			so, intact, err = ExecuteC(seg, cmode)
+			if !intact {
+				c.Violate("canary", model, "bytes outside a caller-owned C buffer were modified by Run")
+			}
+			c.Count("segments_run_on_c_memory", 1)
+		} else {
+			so, err = Execute(seg)
+		}
 		if err != nil {
 			c.Violate("prepare", model, err.Error())
 			return
